@@ -30,6 +30,8 @@ type c02Case struct {
 	UserAgent    *string     `json:"user_agent,omitempty"`
 	Addrs        []c02Addr   `json:"addrs,omitempty"`
 	Importance   string      `json:"importance,omitempty"`
+	// Renders: how often the same Msg is rendered (structure judged every time); 0/1 = once.
+	Renders int `json:"renders,omitempty"`
 	Bulk         bool        `json:"bulk,omitempty"`
 }
 
@@ -227,6 +229,22 @@ func c02Run(c c02Case) []*core.Violation {
 	}
 	root := mimeread.Parse(buf.Bytes())
 	var vs []*core.Violation
+	// structure is judged for every render (judgeStructure), the free-text values for the first
+	judgeStructure := func(root *mimeread.Entity) []*core.Violation {
+		var vs []*core.Violation
+		root.Walk(func(e *mimeread.Entity) {
+			for _, p := range e.Problems {
+				if strings.Contains(p, "neither a field") || strings.Contains(p, "continuation line without") || strings.Contains(p, "not terminated by CRLF") {
+					vs = append(vs, core.V("stray-header-line", "depth %d: %s", e.Depth, p))
+				}
+			}
+		})
+		vs = append(vs, oracle.CompareSections(root, oracle.ExpectedSections(&spec, b.Leaves, extras))...)
+		if len(vs) == 0 {
+			vs = append(vs, oracle.CompareLeaves(root, b.Leaves, len(spec.Parts), len(spec.Embeds), len(spec.Attachments), oracle.LeafOpts{})...)
+		}
+		return vs
+	}
 	// 1. every header section consists of fields and continuations only
 	root.Walk(func(e *mimeread.Entity) {
 		for _, p := range e.Problems {
@@ -265,6 +283,25 @@ func c02Run(c c02Case) []*core.Violation {
 	// 3. the sections end where they should: leaves carry the supplied content and texts
 	if len(vs) == 0 {
 		vs = append(vs, oracle.CompareLeaves(root, b.Leaves, len(spec.Parts), len(spec.Embeds), len(spec.Attachments), oracle.LeafOpts{})...)
+	}
+	// 3b. the same Msg rendered again (a retry, WriteToFile followed by Send): what was set once must not be
+	// processed a second time
+	if len(vs) == 0 && c.Renders > 1 {
+		for k := 2; k <= c.Renders; k++ {
+			var again bytes.Buffer
+			if _, err := m.WriteTo(&again); err != nil {
+				vs = append(vs, core.V("render-error", "render %d failed on a healthy buffer: %v", k, err))
+				break
+			}
+			for _, v := range judgeStructure(mimeread.Parse(again.Bytes())) {
+				v.Msg = fmt.Sprintf("render %d of the same message: %s", k, v.Msg)
+				vs = append(vs, v)
+			}
+			if len(vs) > 0 {
+				break
+			}
+		}
+		rec.Class("rendered-more-than-once")
 	}
 	// 4. free-text values
 	for _, te := range texts {
@@ -429,6 +466,7 @@ func c02Gen(t *rapid.T) c02Case {
 	files(c.Spec.Embeds)
 	files(c.Spec.Attachments)
 	c.Importance = rapid.SampledFrom([]string{"", "", "low", "high", "urgent", "non-urgent"}).Draw(t, "importance")
+	c.Renders = rapid.SampledFrom([]int{1, 1, 1, 2, 3}).Draw(t, "renders")
 	c.Bulk = rapid.IntRange(0, 4).Draw(t, "bulk") == 0
 	return c
 }
